@@ -27,6 +27,8 @@ type hop struct {
 	K   int    `json:"k"`
 	V   int    `json:"v,omitempty"`
 	Via string `json:"via,omitempty"` // h g arr
+	// write route for hset: "" (hset), index ({h[k] = v}), dot ({h.k = v}, symbol keys only)
+	Route string `json:"route,omitempty"`
 }
 
 type hashScenario struct {
@@ -163,6 +165,9 @@ func genHashScenario(r *kernel.RNG, tier string, i int) interface{} {
 		switch r.Weighted(w) {
 		case 0:
 			op.Op = "hset"
+			if r.Chance(0.3) {
+				op.Route = r.Pick([]string{"index", "dot"})
+			}
 		case 1:
 			op.Op = "hdel"
 		case 2:
@@ -614,13 +619,26 @@ func execHash(body json.RawMessage) *kernel.Result {
 			}
 			res.Probe("alias")
 		case "hset":
-			o := ev(fmt.Sprintf("(hset %s %s %d)", H, k, op.V))
+			text := fmt.Sprintf("(hset %s %s %d)", H, k, op.V)
+			switch {
+			case op.Route == "index" && op.Via != "arr":
+				ik := k
+				if sc.Keys[op.K].Kind == "arr1" || sc.Keys[op.K].Kind == "arrN" {
+					ik = strings.Trim(k, "[]") // h[1 2] indexes with the array key [1 2]
+				}
+				text = fmt.Sprintf("{%s[%s] = %d}", H, ik, op.V)
+				res.Probe("write-by-index-assignment")
+			case op.Route == "dot" && sc.Keys[op.K].Kind == "sym" && op.Via != "arr":
+				text = fmt.Sprintf("{%s.%s = %d}", H, sc.Keys[op.K].Text, op.V)
+				res.Probe("write-by-dot-path")
+			}
+			o := ev(text)
 			if !o.OK() {
 				site := "hset"
 				if o.Panicked {
 					site += "@" + o.Site
 				}
-				fail("C14.V-value", site, "step %d: (hset %s %s %d) gave %s", step, H, k, op.V, o)
+				fail("C14.V-value", site, "step %d: %s gave %s", step, text, o)
 				return res
 			}
 			if live {
@@ -736,6 +754,12 @@ func shrinkHash(body json.RawMessage) []json.RawMessage {
 			s := sc
 			s.Ops = append([]hop{}, sc.Ops...)
 			s.Ops[i].Via = ""
+			emit(s)
+		}
+		if op.Route != "" {
+			s := sc
+			s.Ops = append([]hop{}, sc.Ops...)
+			s.Ops[i].Route = ""
 			emit(s)
 		}
 		if op.Op == "obs" || op.Op == "hgetd" {
